@@ -214,6 +214,8 @@ async def _explore(m, world, njobs, variant=0, limit=4000):
                         return dict(world=world, njobs=njobs, error="schedule does not terminate", schedule=list(map(str, choices)))
             except C09_bounded.Internal as e:
                 return dict(world=world, njobs=njobs, error=str(e), schedule=list(map(str, choices or ())))
+            except (m["exceptions"].ConsistencyError, AssertionError) as e:
+                return dict(world=world, njobs=njobs, error=f"{type(e).__name__}: {str(e)[:200]}", schedule=list(map(str, choices or ())))
             if choices is None:
                 continue
             async with db:
